@@ -1,6 +1,8 @@
 package workceptor
 
 import (
+	"github.com/ansible/receptor/pkg/utils"
+	"context"
 	"time"
 	"os/exec"
 	"fmt"
@@ -299,6 +301,43 @@ func Verif_C13_cancel_after_an_early_cancel() {
 	if second == 0 {
 		verifapi.Assert("unit-recorded-as-cancelled", unit.Status().State == WorkStateCanceled)
 	}
+	wk.cancel()
+	verifapi.Quiesce()
+}
+
+// Verif_C13_finished_remote_unit_survives_its_ttl: a remote unit submitted with a time-to-live started in
+// time and was reported Succeeded (or is Running); then the ttl runs out while its local job is still
+// open. The expiry only concerns units that never started: the state does not go back to Failed.
+func Verif_C13_finished_remote_unit_survives_its_ttl() {
+	dir := verifapi.TempDir()
+	wk := verifWorkceptor(dir)
+	verifapi.FixRandom("unit0095")
+	unit, err := wk.w.AllocateRemoteUnit("R", "echo", "tls", "1s", false, map[string]string{})
+	verifapi.Assert("allocated", err == nil)
+	rw := unit.(*remoteUnit)
+	jc := &utils.JobContext{}
+	jc.NewJob(context.Background(), 1, false)
+	go rw.setExpiration(jc)
+	verifapi.Quiesce()
+	started := verifapi.Bool()
+	state := []int{WorkStateRunning, WorkStateSucceeded}[verifapi.Choose(2)]
+	if started {
+		rw.UpdateFullStatus(func(st *StatusFileData) {
+			st.State, st.Detail, st.StdoutSize = state, "remote says so", 10
+			st.ExtraData.(*RemoteExtraData).RemoteUnitID = "rem1"
+			st.ExtraData.(*RemoteExtraData).RemoteStarted = true
+		})
+	}
+	verifapi.AdvanceTime(time.Second) // the ttl runs out
+	verifapi.Quiesce()
+	st := rw.Status()
+	verifapi.Cover("ttl-over")
+	if started {
+		verifapi.Assert("started-unit-keeps-its-state-when-the-ttl-runs-out", verifapi.All(st.State == state, st.StdoutSize == 10))
+	} else {
+		verifapi.Assert("unit-that-never-started-expires", st.State == WorkStateFailed)
+	}
+	jc.Cancel()
 	wk.cancel()
 	verifapi.Quiesce()
 }
